@@ -3,6 +3,7 @@
 //	C validate <img>                       -> "err" (parse failed) | "ok <n> <class>..." (errors reported, in order)
 //	P p_no_false_alarm <img>               generated well-formed image: parses and validates clean
 //	P p_saved_clean <img>                  Parse -> Assemble -> Parse -> Validate reports nothing
+//	P p_detect_built <kind>                 the same on a large image built inside the worker (pad16m)
 //	P p_detect <img> <range> <base> <pos> <vals>
 //	                                       img validates clean; for every replacement value of byte <pos>
 //	                                       (a protected position, <range> = fv-header | file-header | body |
@@ -153,12 +154,49 @@ func isFreeMarker(img []byte, base int) bool {
 	return true
 }
 
+// p_detect_built <kind>: like p_detect on an image too large for a case argument, built here.
+// pad16m: a volume holding a pad file of 0xFFFF00 bytes (size bytes 00 FF FF, body all FF) followed
+// by a second file; size byte 20 raised to FF turns the pad file's header into the free-space marker.
+func pDetectBuilt(args []string) string {
+	switch args[0] {
+	case "pad16m":
+		body := make([]byte, 0xFFFF00-24)
+		for i := range body {
+			body[i] = 0xFF
+		}
+		f1 := &uefigen.File{Type: 0xF0, State: 0xF8, Body: body}
+		for i := range f1.GUID {
+			f1.GUID[i] = 0xFF
+		}
+		f2 := &uefigen.File{Type: 1, State: 0xF8, Body: []byte{1, 2, 3, 4, 5}} // no checksum attribute: clean for the pinned validate too
+		f2.GUID[0] = 0x22
+		v := &uefigen.Vol{FSGUID: uefigen.FFS2, Attrs: 0x800 | 0x4FEFF, Revision: 2, BlockSize: 4096, Files: []*uefigen.File{f1, f2}}
+		img, fields := uefigen.EmitVol(v)
+		base := -1
+		for _, f := range fields {
+			if f.Name == "file.guid0" {
+				base = f.Off
+				break
+			}
+		}
+		if base < 0 {
+			return "harness-error no-file"
+		}
+		return detectAt(img, "file-header", base, base+20, []byte{0xFF, 0x01})
+	}
+	return "harness-error unknown-kind"
+}
+
 func pDetect(args []string) string {
 	img := UnH(args[0])
 	rng := args[1]
 	base := int(UnN(args[2]))
 	pos := int(UnN(args[3]))
 	vals := UnH(args[4])
+	return detectAt(img, rng, base, pos, vals)
+}
+
+func detectAt(img []byte, rng string, base, pos int, vals []byte) string {
 	if pos < 0 || pos >= len(img) {
 		return "skip"
 	}
@@ -282,7 +320,7 @@ func bigFreeMarkerImage() ([]byte, int) {
 	}
 	f1 := &uefigen.File{Type: 1, State: 0xF8, Body: body}
 	f1.GUID[0] = 0x11
-	f2 := &uefigen.File{Type: 1, State: 0xF8, Attr: 0x40, Body: []byte{1, 2, 3, 4, 5}}
+	f2 := &uefigen.File{Type: 1, State: 0xF8, Body: []byte{1, 2, 3, 4, 5}} // no checksum attribute: clean for the pinned validate too
 	f2.GUID[0] = 0x22
 	v := &uefigen.Vol{FSGUID: uefigen.FFS2, Attrs: 0x800 | 0x4FEFF, Revision: 2, BlockSize: 4096, Files: []*uefigen.File{f1, f2}}
 	img, fields := uefigen.EmitVol(v)
@@ -295,7 +333,7 @@ func bigFreeMarkerImage() ([]byte, int) {
 }
 
 func gen(r *Rng, tier string, emit Emit) {
-	n := 70
+	n := 110
 	perImage := 36
 	all := false
 	if tier == "thorough" {
@@ -308,6 +346,7 @@ func gen(r *Rng, tier string, emit Emit) {
 		emit("P", "p_detect", H(img), "file-header", N(uint64(base)), N(uint64(base+22)), H([]byte{0xFF, 0x01}))
 		emit("P", "p_detect", H(img), "file-header", N(uint64(base)), N(uint64(base+21)), H([]byte{0x00, 0xFE}))
 	}
+	emit("P", "p_detect_built", "pad16m")
 	for it := 0; it < n; it++ {
 		rr := r.Fork(uint64(it))
 		o := uefigen.Opts{MaxDepth: rr.Pick(0, 0, 1, 2), Strings: true, Alignments: rr.Chance(1, 2), BigBodies: rr.Chance(1, 6)}
@@ -374,5 +413,6 @@ func main() {
 	Register("p_no_false_alarm", pNoFalseAlarm)
 	Register("p_saved_clean", pSavedClean)
 	Register("p_detect", pDetect)
+	Register("p_detect_built", pDetectBuilt)
 	Main(gen)
 }
